@@ -1,4 +1,5 @@
 import abc
+import numbers
 
 import numpy as np
 
@@ -25,8 +26,9 @@ class MoScalarFunction(abc.ABC):
         random_state=None,
     ):
         self._seed = None
-        if type(random_state) is int:
-            self._seed = random_state
+        if isinstance(random_state, numbers.Integral):
+            # any integer is a seed: a NumPy integer (np.int64(42), ...) must not fall through to the unseeded generator
+            self._seed = int(random_state)
             self._rng = np.random.RandomState(random_state)
         elif isinstance(random_state, np.random.RandomState):
             self._rng = random_state
